@@ -219,3 +219,46 @@ fn c16_bound_kind_looks_past_groups_that_do_not_bind_the_target() {
     kani::cover!(x == e && x == t, "bound both inside and after the group");
     std::mem::forget((clauses, name));
 }
+
+// K1 (injected trees): validate_clause routes the write blocks of a CREATE CONCEPT through the
+// protected-name check. One key of 7 symbolic printable bytes in SET FIELDS or SET ATTRIBUTES.
+fn expr_ok(_e: &UpdateExpr) -> Result<(), KipError> {
+    Ok(())
+}
+// (did not finish in 600 s: the BTreeSet<&str> built and dropped inside check_assignments; expected not decided)
+// @check id=C16 tier=thorough cap=600 role=validate_clause_create_concept
+// @fns parser::kml::validate_clause, parser::common::is_protected_field
+// @bound injected CREATE CONCEPT whose SET FIELDS or SET ATTRIBUTES block (symbolic choice) carries one key of 7 symbolic printable bytes
+// @stubs alloc::fmt::format -> String::new(); validate_update_expr -> Ok (arity of update expressions cannot accept or reject on a field name)
+#[kani::proof]
+#[kani::unwind(9)]
+#[kani::stub(alloc::fmt::format, fmt_stub)]
+#[kani::stub(validate_update_expr, expr_ok)]
+fn c16_injected_create_concept_cannot_write_engine_owned_fields() {
+    let raw = sym_name::<7>();
+    let key = unsafe { String::from_utf8_unchecked(raw.to_vec()) };
+    let in_fields: bool = kani::any();
+    let assigns: Assignments = vec![(key, MutationValue::Value(KipValue::Null))];
+    let mut c = ConceptCreate {
+        handle: "c".to_string(),
+        r#type: None,
+        client_key: None,
+        name: None,
+        set_fields: None,
+        set_attributes: None,
+        set_facets: Vec::new(),
+        set_structural: None,
+    };
+    if in_fields {
+        c.set_fields = Some(assigns)
+    } else {
+        c.set_attributes = Some(assigns)
+    }
+    let clause = MutationClause::CreateConcept(c);
+    let r = validate_clause(&clause);
+    let protected = eq(&raw, b"_system");
+    assert!(r.is_ok() == !protected, "an injected CREATE CONCEPT is accepted iff its block does not assign an engine-owned field, whichever block carries it");
+    kani::cover!(protected && !in_fields, "_system in SET ATTRIBUTES refused");
+    kani::cover!(!protected, "ordinary name accepted");
+    std::mem::forget((r, clause));
+}
